@@ -25,7 +25,7 @@ import time
 
 import vlib
 
-PROPS = ['Props/C11.v', 'Props/C11src.v']
+PROPS = ['Props/C11.v', 'Props/C11src.v', 'Props/TsMatcher.v']
 
 LF = 10
 # seconds with one or two digits: a timestamp cut short by one byte is a
